@@ -22,7 +22,7 @@ def run(ctx: Ctx):
         opts = dict(speed=[2.0, 4.0, 1.0][k % 3], scheme=["RK4", "RK2", "EF"][k % 3], layout="sparse", kills=(k % 5 == 0),
                     vertadv=(k % 2 == 0), nsteps=8)
         scen_jobs.append(dict(seed=ctx.seed * 100000 + 17000 + k, opts=opts, diffusion=[0.0, 50.0, 400.0][k % 3] if k % 2 else 0.0,
-                              vertdiff=0.01 if k % 4 == 1 else 0.0))
+                              vertdiff=0.01 if k % 4 == 1 else 0.0, vinfo=bool(k % 7 == 3)))
     kernel_jobs = [dict(seed=ctx.seed * 1000 + k, N=[2, 3, 5, 1][k % 4] if k % 16 == 15 else [2, 3, 5, 8][k % 4]) for k in range(400 if ctx.thorough else 64)]
     # sequences in one process: a wide (tall) grid at rest or slow, then a narrower (shorter) one with a fast flow whose stage
     # positions overshoot the boundary — limits, shapes or compiled constants of the first run must not serve the second
